@@ -523,8 +523,18 @@ class _Inliner:
                         continue
                     # only plain field reads of the record (no unpacking / indexing / passing it on)
                     nm_ = x.targets[0].id
+                    # ... calls of the record's own methods (un-extracted below) and whatever is only handed to the
+                    # logger do not count
+                    in_log = {id(u) for c_ in ast.walk(f) if isinstance(c_, ast.Call) and isinstance(c_.func, ast.Attribute)
+                              and isinstance(c_.func.value, ast.Name) and c_.func.value.id in ('logger', 'logging', 'log')
+                              for a_ in list(c_.args) + [k.value for k in c_.keywords] for u in ast.walk(a_)}
+                    meths = {m for m, d in self.class_methods.get(K, {}).items()
+                             if not any(isinstance(dd, ast.Name) and dd.id in ('property', 'classmethod', 'staticmethod')
+                                        for dd in d.decorator_list)}
                     other_use = any(isinstance(u, ast.Name) and u.id == nm_ and isinstance(u.ctx, ast.Load)
-                                    and not any(isinstance(p_, ast.Attribute) and p_.value is u and p_.attr in flds
+                                    and id(u) not in in_log
+                                    and not any(isinstance(p_, ast.Attribute) and p_.value is u and
+                                                (p_.attr in flds or p_.attr in meths)
                                                 for p_ in ast.walk(f))
                                     for u in ast.walk(f))
                     if other_use:
